@@ -10,6 +10,7 @@ import (
 	"os/exec"
 	"path/filepath"
 	"strings"
+	"sync"
 	"syscall"
 	"time"
 
@@ -142,4 +143,19 @@ func copyFile(src, dst string) error {
 		return err
 	}
 	return os.WriteFile(dst, b, 0o755)
+}
+
+var straceOnce sync.Once
+var straceOK bool
+
+// straceWorks reports whether strace can trace a child here (it needs ptrace; some sandboxes forbid it).
+func straceWorks() bool {
+	straceOnce.Do(func() {
+		if _, err := exec.LookPath("strace"); err != nil {
+			return
+		}
+		r := runCmd(30*time.Second, os.Environ(), "", "strace", "-f", "-o", "/dev/null", "-e", "trace=write", "-e", "inject=write:error=EIO:when=1000", "/bin/true")
+		straceOK = r.Exit == 0
+	})
+	return straceOK
 }
